@@ -214,8 +214,27 @@ STD_ONLY = re.compile(r'^(std::vec::|std::collections::|HSET|HMAP|\[T\]::|std::i
 # std operations whose presence/absence on one side only is a matter of idiom (read-only queries, cursor-style consumption, iterator
 # adaptors that keep order and multiplicity); mutating or order-changing ones (truncate, drain, retain, sort, swap_remove, ...) are not
 IDIOM_OPS = {'contains', 'contains_key', 'get', 'len', 'is_empty', 'iter', 'into_iter', 'next', 'position', 'enumerate', 'map', 'cloned', 'copied', 'collect',
-             'pop', 'reverse', 'rev', 'last', 'first', 'ok_or', 'ok_or_else', 'unwrap_or', 'is_some', 'is_none', 'is_ok', 'is_err', 'as_ref', 'values', 'keys',
+             'pop', 'push', 'extend', 'append', 'reverse', 'rev', 'last', 'first', 'sum', 'ok_or', 'ok_or_else', 'unwrap_or', 'is_some', 'is_none', 'is_ok', 'is_err', 'as_ref', 'values', 'keys',
              'any', 'all', 'find', 'for_each', 'count', 'index', 'skip', 'with_capacity', 'new', 'default', 'and_then', 'ok', 'filter_map', 'flatten', 'zip', 'chain', 'by_ref', 'peekable'}
+
+
+ITER_PLUMBING = {'iter', 'into_iter', 'next', 'map', 'cloned', 'copied', 'collect', 'enumerate', 'sum', 'for_each', 'by_ref', 'values', 'keys', 'as_ref', 'len', 'with_capacity', 'new'}
+
+
+def cdiff_has_semantic(ea, es):
+    """do the strict bags differ in anything but std calls and arithmetic (crate-local calls, user code, crate aggregates, returned constants)?"""
+    def sem(bag_):
+        out = collections.Counter()
+        for (kind, name, depth, cx, sig), n in bag_.items():
+            if kind == 'CALL' and (STD_ONLY.match(name) or PLUMBING.match(name)):
+                continue
+            if kind == 'BINOP':
+                continue
+            if kind == 'AGGR' and (name.startswith('std::') or name.startswith('closure:')):
+                continue
+            out[(kind, name)] += n
+        return out
+    return sem(ea) != sem(es)
 
 
 def coarse(F, b, seen=None):
@@ -259,9 +278,15 @@ def rule_coverage(ctx):
         return ctx.cache['rule_coverage']
     from . import props
     cov = {}
+    # a recorded finding (exact key) is already reported by its own property; it does not make the function
+    # 'unclean' for the purpose of tolerating an idiom difference between the copies
+    import os
+    from .main import load_known, VERIF
+    known, _ = load_known(os.path.join(VERIF, 'known_findings.txt'))
     for pid, spec in props.PROPS.items():
         if pid in ('C15', 'C14', 'C16'):
             continue
+        kn = known.get(pid, {})
         for name, fn in spec['rules']:
             try:
                 obs = fn(ctx)
@@ -270,7 +295,7 @@ def rule_coverage(ctx):
             for o in obs:
                 c = cov.setdefault(o['func'], [0, True])
                 c[0] += 1
-                c[1] = c[1] and o['ok']
+                c[1] = c[1] and (o['ok'] or o.key in kn)
     ctx.cache['rule_coverage'] = cov
     return cov
 
@@ -296,7 +321,15 @@ def sib(ctx):
             cdiff = coarse(F, F.bodies.get(owner_a, pa)) ^ coarse(F, F.bodies.get(owner_s, sy))
             # the copies may differ in which std collection / iterator operations they use (idiom), never in crate-local calls,
             # user-code calls, crate types or enum variants
-            if all((k == 'CALL' and STD_ONLY.match(n) and n.split('::')[-1].rstrip('>') in IDIOM_OPS) or (k == 'AGGR' and n.startswith('std::ops::Range')) for k, n in cdiff):
+            idiom_only = all((k == 'CALL' and STD_ONLY.match(n) and n.split('::')[-1].rstrip('>') in IDIOM_OPS) or (k == 'AGGR' and n.startswith('std::ops::Range')) for k, n in cdiff)
+            # pure iteration plumbing (a loop written as an iterator chain or the other way round) is harmless in any function
+            plumbing_only = all(k == 'CALL' and STD_ONLY.match(n) and n.split('::')[-1].rstrip('>') in ITER_PLUMBING for k, n in cdiff)
+            if cdiff and plumbing_only and not cdiff_has_semantic(ea, es):
+                tolerated.append('%s (iteration plumbing only)' % sy['q'])
+                out.append(Obl('SIB', unflav(pa['q']).replace('F::', '%s|%s::' % (F.flavour(pa), F.flavour(sy)), 1), sy['span'], 'same program up to Rc/Arc, RefCell/RwLock', True,
+                               'loop vs iterator-chain form only (%s); same crate-level operations and constants' % (', '.join(sorted(n.split('::')[-1] for k, n in cdiff)) or 'shape')))
+                continue
+            if idiom_only:
                 cov = cov if cov is not None else rule_coverage(ctx)
                 ca, cs = cov.get(owner_a), cov.get(owner_s)
                 if ca and cs and ca[0] > 0 and cs[0] > 0 and ca[1] and cs[1]:
@@ -323,6 +356,70 @@ def sib(ctx):
             ok = ea == es and fa == fs
             out.append(Obl('SIB-SEM', '%s|%s::node::Node::%s' % (a, s, b['name']), sb['span'], 'same error set and list footprint', ok,
                            'errors %s / %s, footprint %s / %s' % (sorted(ea), sorted(es), sorted(fa), sorted(fs))))
+    # effect sequences of the node operations: which half is touched at which endpoint, in which order
+    from .effects import node_events
+    for a, s_ in SIB.items():
+        Ma, Ms = model(ctx, a), model(ctx, s_)
+        for q, b in sorted(F.bodies.items()):
+            if F.flavour(b) != a or b['kind'] == 'Closure' or b['impl_self_q'] != a + '::node::Node' or b['impl_trait']:
+                continue
+            sb = F.bodies.get(q.replace(a + '::', s_ + '::', 1))
+            if sb is None:
+                continue
+
+            def seq(M, body):
+                # bag of (endpoint, list effects, outcomes of other list effects this one is conditional on); the order of
+                # unconditional effects is not observable and is not compared
+                from .core import outcome_edges
+                cfg = F.cfg(body)
+                evs = [e for e in node_events(F, M, body) if M.muts(e[1])]
+
+                def lab(e):
+                    own = e[2]
+                    role = 'self' if own == ('param', 1) else ('other' if own == ('param', 2) else 'peer')
+                    return (role, tuple(sorted((M.role(f), op) for f, op in M.muts(e[1]))))
+                oc = {}
+                for e in evs:
+                    oc[e[0]] = outcome_edges(F, body, e[0])
+                out_ = []
+                for e in evs:
+                    cond = set()
+                    for d in evs:
+                        if d[0] == e[0]:
+                            continue
+                        g, bd = oc[d[0]]
+                        if g and cfg.edge_dominates(g[0], g[1], e[0]):
+                            cond.add((lab(d), 'ok'))
+                        if bd and cfg.edge_dominates(bd[0], bd[1], e[0]):
+                            cond.add((lab(d), 'fail'))
+                    out_.append((lab(e), tuple(sorted(cond))))
+                return sorted(out_)
+            sa, ss = seq(Ma, b), seq(Ms, sb)
+            if sa or ss:
+                out.append(Obl('SIB-SEM', '%s|%s::node::Node::%s' % (a, s_, b['name']), sb['span'], 'same sequence of list effects (endpoint, list, operation)', sa == ss,
+                               'both: %s' % sa if sa == ss else 'plain %s vs sync %s' % (sa, ss)))
+    # kernel signatures
+    ks = {K.q: K for K in ctx.kernels()}
+    for a, s_ in SIB.items():
+        for q, K in sorted(ks.items()):
+            if K.flavour != a:
+                continue
+            KS = ks.get(q.replace(a + '::', s_ + '::', 1))
+            if KS is None:
+                continue
+
+            def sig(k):
+                # what the kernel computes, not how it keeps its frontier (the family rules decide that per kernel)
+                if k.missing:
+                    return ('roles missing',)
+                emit = None
+                if k.recurse and 'RECORD' in k.sites:
+                    rb = k.recurse[0][0]
+                    emit = 'pre' if k.cfg.dominates(k.sites['RECORD'], rb) else ('post' if k.cfg.dominates(rb, k.sites['RECORD']) else '?')
+                return (k.family, k.iter_ctor, k.edge_kind, bool(k.result), emit, k.teq_true is not None)
+            sa, ss = sig(K), sig(KS)
+            out.append(Obl('SIB-SEM', '%s|%s::%s' % (a, s_, q.split('::', 1)[1]), KS.b['span'], 'same kernel signature (iterator, edge presentation, frontier discipline, emission)', sa == ss,
+                           'both: %s' % (sa,) if sa == ss else 'plain %s vs sync %s' % (sa, ss)))
     # trait impls present on one side only (public behaviour!)
     impl_a = collections.defaultdict(set)
     for im in F.impls:
